@@ -638,6 +638,22 @@ def rule_derived(cx, rec, rule="S1", which=("gt", "le", "ge"), ne_rule=None):
                     continue
             else:
                 ok, case = equivalent(got, w, base)
+                if ok is False:
+                    from .rules_layout import _reduced_masks
+                    if _reduced_masks(got) or _reduced_masks(w):
+                        ok = None   # rounding masks the domain cannot interpret: not a decided difference
+                    else:
+                        # byte comparisons of the same ranges with different length terms (equal under a guard the
+                        # substitution could not apply): related atoms, not a decided difference
+                        groups = {}
+
+                        def grp(a, groups=groups):
+                            if a[0] == "purecall" and a[1] == "memcmp":
+                                groups.setdefault((a[2], a[3]), set()).add(a[4])
+                        walk_atoms(got, grp)
+                        walk_atoms(w, grp)
+                        if any(len(v) > 1 for v in groups.values()):
+                            ok = None
                 if ok is None:
                     rec.count("undecided")
                     rec.note("%s %s %s: undecided against %s" % (tu.cfg, rl, fn, what))
